@@ -140,7 +140,11 @@ func (ex *Exec) step(st *State) bool {
 	case *ssa.MakeSlice:
 		fr.regs[in] = ex.doMakeSlice(st, fr, in)
 	case *ssa.MakeChan:
-		fr.regs[in] = &VOpaque{T: in.Type(), ID: ex.fresh("chan", SInt)}
+		id := ex.fresh("chan", SInt)
+		if sz, ok := ex.val(st, fr, in.Size).(*Term); ok {
+			st.assume(Eq(App("chan.cap", SInt, id), sz))
+		}
+		fr.regs[in] = &VOpaque{T: in.Type(), ID: id}
 	case *ssa.MakeClosure:
 		fn := in.Fn.(*ssa.Function)
 		env := make([]Value, len(in.Bindings))
@@ -175,7 +179,7 @@ func (ex *Exec) step(st *State) bool {
 	case *ssa.Send:
 		ex.doSend(st, fr, in)
 	case *ssa.Select:
-		ex.unsupported("select statement")
+		fr.regs[in] = ex.doSelect(st, fr, in)
 	case *ssa.RunDefers:
 		return ex.doRunDefers(st, fr, in)
 	case *ssa.If:
@@ -295,6 +299,16 @@ func (ex *Exec) doUnOp(st *State, fr *Frame, in *ssa.UnOp) Value {
 		return App("bitnot", SInt, x.(*Term))
 	case token.ARROW:
 		// channel receive: arbitrary value
+		if ch, ok := x.(*VOpaque); ok && ch.ID != nil {
+			if d, ok := st.ghost["$timer!"+ch.ID.Name].(*Term); ok {
+				// a timer channel (time.After): never blocks for ever, holds the caller for its duration
+				if g, ok := st.ghost["clock.slept"].(*Term); ok {
+					st.ghost["clock.slept"] = Add(g, d)
+				}
+				return ex.symbolicValue(st, in.Type(), ex.fresh("tick", SInt).Name, 0)
+			}
+		}
+		ex.blockCheck(st, in, "channel receive that may block", False)
 		if in.CommaOk {
 			tt := in.Type().(*types.Tuple)
 			return &VTuple{Vals: []Value{ex.symbolicValue(st, tt.At(0).Type(), ex.fresh("recv", SInt).Name, 0), ex.fresh("recvok", SBool)}}
@@ -415,12 +429,12 @@ func (ex *Exec) doBinOp(st *State, fr *Frame, in *ssa.BinOp) Value {
 		if x.IsIntLit() && y.IsIntLit() {
 			return BigLit(new(big.Int).Or(x.Int, y.Int))
 		}
-		return ex.opaqueInt(st, rt, App("bitor", SInt, x, y))
+		return ex.bitOrXor(st, "bitor", x, y, rt)
 	case token.XOR:
 		if x.IsIntLit() && y.IsIntLit() {
 			return BigLit(new(big.Int).Xor(x.Int, y.Int))
 		}
-		return ex.opaqueInt(st, rt, App("bitxor", SInt, x, y))
+		return ex.bitOrXor(st, "bitxor", x, y, rt)
 	case token.AND_NOT:
 		return ex.opaqueInt(st, rt, App("bitandnot", SInt, x, y))
 	case token.SHL:
@@ -441,6 +455,47 @@ func (ex *Exec) doBinOp(st *State, fr *Frame, in *ssa.BinOp) Value {
 	}
 	ex.unsupported("binary operator %s", in.Op)
 	return nil
+}
+
+// bitOrXor: x | y and x ^ y. Unsigned types of at most 8 bits: exact (bit by bit). Wider types: the
+// operator stays uninterpreted with the facts that hold for every pair of non-negative operands - bounds,
+// and r == x + y when the operands occupy disjoint bit ranges (x a multiple of 2^k, y below 2^k: the usual
+// way of packing fields and bytes) - sound, not complete.
+func (ex *Exec) bitOrXor(st *State, op string, x, y *Term, rt types.Type) *Term {
+	ii, _ := intTypeInfo(rt)
+	r := App(op, SInt, x, y)
+	st.assume(rangeFact(rt, r))
+	if !ii.signed && ii.bits <= 8 {
+		var sum *Term = IntLit(0)
+		for i := int64(0); i < int64(ii.bits); i++ {
+			bx := EMod(EDiv(x, BigLit(pow2(i))), IntLit(2))
+			by := EMod(EDiv(y, BigLit(pow2(i))), IntLit(2))
+			var bit *Term
+			if op == "bitor" {
+				bit = Ite(Or(Eq(bx, IntLit(1)), Eq(by, IntLit(1))), IntLit(1), IntLit(0))
+			} else {
+				bit = Ite(Neq(bx, by), IntLit(1), IntLit(0))
+			}
+			sum = Add(sum, Mul(bit, BigLit(pow2(i))))
+		}
+		st.assume(Eq(r, sum))
+	}
+	nn := And(Le(IntLit(0), x), Le(IntLit(0), y))
+	if op == "bitor" {
+		st.assume(Implies(nn, And(Le(x, r), Le(y, r), Le(r, Add(x, y)))))
+	} else {
+		st.assume(Implies(nn, And(Le(IntLit(0), r), Le(r, Add(x, y)))))
+	}
+	step := int64(4)
+	if ii.bits <= 8 {
+		step = 1
+	}
+	for k := step; k < int64(ii.bits); k += step {
+		p := BigLit(pow2(k))
+		st.assume(Implies(And(nn, Eq(EMod(x, p), IntLit(0)), Lt(y, p)), Eq(r, Add(x, y))))
+		st.assume(Implies(And(nn, Eq(EMod(y, p), IntLit(0)), Lt(x, p)), Eq(r, Add(x, y))))
+	}
+	return r
 }
 
 func (ex *Exec) opaqueInt(st *State, t types.Type, v *Term) *Term {
@@ -956,4 +1011,36 @@ func (st *State) refIsNil(ref *Term) *Term {
 		}
 	}
 	return Eq(ref, IntLit(0))
+}
+
+// doSelect: a select statement picks any of its cases (a blocking select: one of them; a non-blocking one may
+// also pick none, index -1); received values are arbitrary, sends are recorded as ghost events.
+func (ex *Exec) doSelect(st *State, fr *Frame, in *ssa.Select) Value {
+	if in.Blocking {
+		ex.blockCheck(st, in, "select that may block", False)
+	}
+	site := fmt.Sprintf("select!%s!%d", ex.siteName(st, in, "select"), st.top().visits[st.top().block])
+	idx := Var(site+"!idx", SInt)
+	lo := int64(0)
+	if !in.Blocking {
+		lo = -1
+	}
+	st.assume(And(Le(IntLit(lo), idx), Lt(idx, IntLit(int64(len(in.States))))))
+	vals := []Value{idx, Var(site+"!ok", SBool)}
+	for i, s := range in.States {
+		if s.Dir == types.RecvOnly {
+			vals = append(vals, ex.symbolicValue(st, s.Chan.Type().Underlying().(*types.Chan).Elem(), fmt.Sprintf("%s!recv%d", site, i), 0))
+		} else {
+			// the send happens only if this case is chosen: recorded when the index is decided
+			if ex.decide(st, Eq(idx, IntLit(int64(i)))) {
+				x := ex.val(st, fr, s.Send)
+				if g, ok := st.ghost["$sends"].(*VTuple); ok {
+					st.ghost["$sends"] = &VTuple{Vals: append(append([]Value(nil), g.Vals...), x)}
+				} else {
+					st.ghost["$sends"] = &VTuple{Vals: []Value{x}}
+				}
+			}
+		}
+	}
+	return &VTuple{Vals: vals}
 }
